@@ -35,6 +35,8 @@ func runC15(c *report.Ctx) {
 	checkInitStatusDataflow(c)
 	checkGatePrimitive(c) // the status derives from the await results of the barrier primitive
 	checkFirstFatalErrorLifetime(c) // runtime-done/reset status and error type are read from this record
+	checkAgentFaultReports(c)       // a refused report must not occupy the first-fault slot
+	checkWatcherErrorNonNil(c)
 	c.Clause("3 invoke events")
 	checkInvokeEvents(c)
 	c.Clause("4 reset runtime-done")
